@@ -82,6 +82,9 @@ func (v verificationMethodValidator) verifyThumbprint(method *did.VerificationMe
 		// JWK() returns nil without error if the verification method has no publicKeyJwk
 		return errors.New("verificationMethod does not contain a JWK")
 	}
+	// The key ID must be derived from the key material. AssignKeyID does nothing if the JWK already contains a kid,
+	// so remove any kid that was embedded in the publicKeyJwk first.
+	_ = keyAsJWK.Remove(jwk.KeyIDKey)
 	_ = jwk.AssignKeyID(keyAsJWK)
 	if keyAsJWK.KeyID() != method.ID.Fragment {
 		return errors.New("key thumbprint does not match ID")
